@@ -1500,6 +1500,8 @@ struct TransitionBase {
 	#pragma warning(pop)
 #endif
 
+#pragma pack(pop)
+
 template <typename TPayload>
 struct TransitionT final
 	: TransitionBase
@@ -1576,8 +1578,6 @@ struct TransitionT<void> final
 {
 	using TransitionBase::TransitionBase;
 };
-
-#pragma pack(pop)
 
 }
 
@@ -1696,6 +1696,8 @@ struct TaskBase {
 	};
 };
 
+#pragma pack(pop)
+
 FFSM2_CONSTEXPR(11)
 bool
 operator == (const TaskBase& lhs,
@@ -1754,8 +1756,6 @@ struct TaskT<void> final
 {
 	using TaskBase::TaskBase;
 };
-
-#pragma pack(pop)
 
 }
 }
